@@ -747,7 +747,7 @@ class AdaptiveMonitor(Base):
 class ScreeningMonitor(Base):
     """C13: self-consistency of the induced vector potential, every iteration."""
 
-    STORED_FACTOR = 10.0
+    STORED_FACTOR = 30.0
 
     def __init__(self, every=1):
         super().__init__()
